@@ -84,6 +84,14 @@ var c01Cells = []struct{ name, prog string }{
 	{"closure.escaped.through-mapcar", "(let ((vf (let ((vc 0)) (lambda (vz) (let ((vq vz)) (setq vc (+ vc vq))))))) (vtr (mapcar vf (quote (1 2 3)))))"},
 	{"closure.escaped.through-apply", "(let ((vf (let ((vc 0)) (lambda (vy vz) (dotimes (vi 1) (setq vc (+ vc vy vz))) (vtr vc))))) (apply vf 1 (quote (2))) (apply vf (quote (3 4))))"},
 	{"closure.escaped.global-not-touched", "(setq vcg# 7) (let ((vf (let ((vcg# 0)) (lambda (vz) (let ((vq 1)) (setq vcg# (+ vcg# vz vq))) (vtr vcg#))))) (funcall vf 1) (vtr vcg#))"},
+	// &rest: a list of the surplus arguments, made for the call
+	{"rest.collects-surplus", "(funcall (lambda (va &rest vr) (vtr (list va vr))) (vtr 1) (vtr 2) (vtr 3))"},
+	{"rest.empty", "(funcall (lambda (va &rest vr) (vtr (list va vr))) 1)"},
+	{"rest.defun-apply", "(defun c01rs# (va &rest vr) (vtr (cons va vr))) (apply (function c01rs#) 1 2 (quote (3 4)))"},
+	{"rest.mapcar-two-lists-own-list-per-call", "(vtr (mapcar (lambda (&rest vr) vr) (quote (1 2 3)) (quote (10 20 30))))"},
+	{"rest.mapcar-list-kept-by-setq", "(let ((vkeep nil)) (mapcar (lambda (va &rest vr) (setq vkeep (cons vr vkeep)) va) (quote (1 2 3)) (quote (10 20 30))) (vtr vkeep))"},
+	{"rest.mapcar-list-captured-by-closure", "(let ((vfs (mapcar (lambda (&rest vr) (lambda (vz) vr)) (quote (1 2)) (quote (10 20))))) (vtr (list (funcall (car vfs) 0) (funcall (car (cdr vfs)) 0))))"},
+	{"rest.funcall-list-independent-of-later-call", "(let ((vf (lambda (&rest vr) vr))) (let ((va (funcall vf 1 2)) (vb (funcall vf 3 4))) (vtr (list va vb))))"},
 	// the same let / function body evaluated again: every evaluation has its own bindings
 	{"let.reevaluated-parallel", "(let ((vx 1) (vout nil)) (dotimes (vi 3) (let ((vx (+ vx 10)) (vy (+ vx 100))) (setq vout (cons (list vx vy) vout)))) (vtr vout))"},
 	{"defun.recursion-frames-independent", "(defun c01rf# (vn) (let ((va (* vn 10))) (if (> vn 0) (c01rf# (- vn 1))) (vtr (list vn va)))) (c01rf# 2) (c01rf# 1)"},
